@@ -124,6 +124,31 @@ pub fn run(ctx: &Ctx, ev: &mut Ev) {
             }
         }
     }
+    // (f) surrogate neighbourhood: every sequence of <= 3 (thorough 4) atoms over ASCII, a non-ASCII character, an astral
+    // character, the four corner surrogates and BOTH neighbours of the surrogate range (U+D7FF, U+E000), UTF-16 source
+    if ctx.want("surr") && !tiny {
+        let atoms: [u32; 9] = [0x61, 0xE9, 0xD7FF, 0xD800, 0xDBFF, 0xDC00, 0xDFFF, 0xE000, 0x1F4A9];
+        for seq in strings_over(&atoms, if th { 4 } else { 3 }).iter() {
+            if seq.is_empty() { continue; }
+            // a high surrogate directly followed by a low one would be a pair, which the scalar atoms cannot denote
+            if seq.windows(2).any(|w| (0xD800..0xDC00).contains(&w[0]) && (0xDC00..0xE000).contains(&w[1])) { continue; }
+            for &enc in encoder_families().iter() { if !ev.mine() { continue; } c.check(ev, enc, seq, true, false); }
+        }
+    }
+    // (g) the one stateful encoder in each of its states: every scalar value after a JIS X 0208 character and after a
+    // JIS X 0201 Roman character (the state-dependent arms skip the pre-checks a fresh encoder applies)
+    if ctx.want("states2022") && !tiny {
+        for block in 0..0x1100u32 {
+            if !ev.mine() { continue; }
+            if !th && block >= 0x300 && block % 16 != (ctx.seed as u32) % 16 { continue; }   // quick: all of the BMP + planes 1-2, every 16th block above
+            for cp in (block << 8)..(block << 8) + 0x100 {
+                if char::from_u32(cp).is_none() { continue; }
+                c.check(ev, ISO_2022_JP, &[0x3042, cp], true, false);
+                c.check(ev, ISO_2022_JP, &[0xA5, cp], true, false);
+                if cp & 0xF == 0xE || th { c.check(ev, ISO_2022_JP, &[0x4E00, cp, 0x3042], true, false); }
+            }
+        }
+    }
     // (e) huge texts: lengths on both sides of 2^16 (thorough: 2^17, 2^20): mappable text of this encoder with unmappable
     // characters next to the 2^16 boundary and at both ends
     if ctx.want("huge") && !tiny {
